@@ -36,6 +36,7 @@ demo_dst = os.path.join(WT, crate, "tests", "seeded_demo.rs")
 shutil.copy(os.path.join(SRC, "demo.rs"), demo_dst)
 demo_cmd = ["cargo", "test", "-p", crate, "--offline", "--test", "seeded_demo"]
 ok = True
+rc, out = sh(["cargo", "build", "--workspace", "--offline"]); ok &= step("cargo build --workspace, unchanged tree", rc, out, True)
 rc, out = sh(demo_cmd); ok &= step("demo on unchanged tree (must pass)", rc, out, True)
 rc, out = sh(["git", "apply", os.path.join(SRC, "patch.diff")]); ok &= step("git apply patch", rc, out, True)
 rc, out = sh(["cargo", "build", "--workspace", "--offline"]); ok &= step("cargo build --workspace with patch", rc, out, True)
